@@ -372,3 +372,79 @@ def mutate(rng, data):
     else:
         return bytes(rng.randint(0, 255) for _ in range(rng.randint(1, 40)))
     return bytes(b)
+
+
+# ------------------------------------------------------------------------------------------------
+# validation-oriented generation: filters over a small alphabet, limits around packet sizes
+# ------------------------------------------------------------------------------------------------
+
+FILTER_ATOMS = ["/", "+", "#", "$share", "a", "b", "", "g", "é"]
+
+
+def gen_filter_alpha(rng):
+    n = rng.choice([1, 2, 3, 3, 4, 5, 6])
+    s = "".join(rng.choice(FILTER_ATOMS) for _ in range(n))
+    if rng.chance(0.5):
+        # bias toward $share shapes
+        s = "$share" + "".join(rng.choice(["/", "/", "g", "+", "#", "a", ""]) for _ in range(rng.randint(0, 5)))
+    return s.encode()
+
+
+def gen_validation_packet(rng):
+    """a packet for the validators: valid shapes plus exactly the things the validators must catch"""
+    k = rng.choice(["publish", "publish", "subscribe", "subscribe", "unsubscribe", "disconnect", "puback", "connect"])
+    if k == "publish":
+        f = gen_publish_fields(rng, "", allow_over=True)
+        f = [x for x in f if not x.startswith("pid=") and not x.startswith("dup=")]
+        f.append(f"pid={0 if rng.chance(0.9) else 5}")
+        f.append(f"dup={0 if rng.chance(0.95) else 1}")
+        if rng.chance(0.1):
+            f = [x for x in f if not x.startswith("topic=")] + [f"topic={hexs(gen_filter_alpha(rng))}"]
+        if rng.chance(0.1):
+            f = [x for x in f if not x.startswith("ta=")] + ["ta=0"]
+        if rng.chance(0.05):
+            f.append("sids=1")
+        if rng.chance(0.1):
+            f = [x for x in f if not x.startswith("rt=")] + [f"rt={hexs(gen_filter_alpha(rng))}"]
+        return "publish " + " ".join(f)
+    if k == "subscribe":
+        f = ["subscribe", f"pid={0 if rng.chance(0.5) else 9}"]
+        for _ in range(rng.choice([0, 1, 1, 1, 2, 3])):
+            flt = gen_filter_alpha(rng) if rng.chance(0.7) else gen_filter(rng)
+            f.append(f"sub={hexs(flt)}:{rng.choice([0, 1, 2])}:{rng.choice([0, 0, 1])}:{rng.choice([0, 1])}:{rng.choice([0, 1, 2])}")
+        if rng.chance(0.3):
+            f.append(f"subid={rng.choice([1, 127, 128, 268435455])}")
+        f += gen_ups(rng, "up", allow_over=True)
+        return " ".join(f)
+    if k == "unsubscribe":
+        f = ["unsubscribe", f"pid={0 if rng.chance(0.5) else 9}"]
+        for _ in range(rng.choice([0, 1, 1, 1, 2, 3])):
+            flt = gen_filter_alpha(rng) if rng.chance(0.7) else gen_filter(rng)
+            f.append(f"tf={hexs(flt)}")
+        f += gen_ups(rng, "up", allow_over=True)
+        return " ".join(f)
+    if k == "disconnect":
+        return gen_disconnect(rng, allow_over=True)
+    if k == "connect":
+        return gen_connect(rng, allow_over=True)
+    return gen_ack(rng, "puback", allow_over=True)
+
+
+def gen_settings(rng, size_hint=None):
+    f = []
+    if rng.chance(0.5):
+        f.append(f"mq={rng.choice([0, 1, 2])}")
+    if rng.chance(0.4):
+        f.append(f"ra={rng.choice([0, 1])}")
+    if rng.chance(0.4):
+        f.append(f"wsa={rng.choice([0, 1])}")
+    if rng.chance(0.4):
+        f.append(f"sia={rng.choice([0, 1])}")
+    if rng.chance(0.4):
+        f.append(f"ssa={rng.choice([0, 1])}")
+    if rng.chance(0.5):
+        base = size_hint if size_hint is not None else rng.choice([10, 100, 1000])
+        f.append(f"mps={max(1, base + rng.choice([-2, -1, 0, 1, 2, 50]))}")
+    if rng.chance(0.3):
+        f.append(f"csei={rng.choice([0, 10])}")
+    return " ".join(f)
